@@ -188,3 +188,15 @@ _mk("C07",
     level_text="The literal's value as parsed by the implementation is compared with the model and with an independent grammar of Go-style escapes/raw forms, canonical decimal/hexadecimal integers and case-insensitive keywords, exhaustively over the alphabet.",
     level_note="strconv.ParseFloat is an engine (oracle). Leading-zero integers follow Go base-0 rules (010 = 8): reported, not judged.",
     extra_tb=["strconv.ParseFloat (oracle)"], exhaustive=True)
+
+_mk("C15",
+    ["Platypus.Properties.C15"],
+    rule="histories of load+run operations executed in ONE process with GOMAXPROCS=1 and the collector off (sync.Pool then really recycles parser, Task, Point and TFMeta objects): "
+         "operations drawn from a pool of 10 scripts (succeeding, failing mid-loop, exiting, cancelled by the signal, syntactically invalid, check-failing, grok with scoped patterns, use() with exit in the callee, "
+         "register/scope heavy, JSON) on 2 points; all ordered pairs (as 4-operation histories), random histories of length 3..40 (quick) / 3..200 (thorough); "
+         "every operation's outcome (final point with Go types and key index, error chain, probe trace, polls) is compared with the history-free model; strict",
+    technique="Lean 4 theorem (reset covering the fields read => every operation in every history = the operation in a fresh state, for every pool choice) + decide-checked regenerated struct-field/reset-assignment facts for Task, Point, TFMeta, parser, PlReg + history correspondence",
+    level_text="Kernel-checked: if the reset path assigns every field an operation reads, the operation's result is independent of the recycled object and therefore of the whole history and of the pool's choices; "
+               "the premise is discharged for the source's pooled structs by facts regenerated on every run (a new unreset field breaks decide). Tied to the code by running histories in one process against the history-free model.",
+    level_note="Three parser fields (yyParser, lastClosing, inject) are exceptions argued in the theorem's comment (written before read), not extracted; sync.Pool/GC behaviour is Go's.",
+    extra_tb=[TB_FLOAT], exhaustive=False)
